@@ -88,6 +88,9 @@ type Eng struct {
 	loops      map[*ssa.BasicBlock]*loopInfo
 	loopList   []*loopInfo
 	tags       map[string]int
+	rtags      map[string]int
+	detAx      map[string]bool
+	detLits    map[string]map[int]map[string]bool // deterministic function -> string parameter -> literal arguments seen
 	strLits    map[string]T
 	notes      map[string]bool // assumptions / abstractions met
 	trustedUse map[string]bool
@@ -149,6 +152,7 @@ func (e *Eng) reset() {
 	e.siteHit = nil
 	e.tagTypes = map[string]types.Type{}
 	e.implDone = map[string]bool{}
+	e.detAx = nil
 	if e.ifaceSeen == nil {
 		e.ifaceSeen = map[string]*types.Interface{}
 	}
@@ -343,10 +347,10 @@ func (e *Eng) fieldPtr(p *PtrV, t types.Type, i int) *PtrV {
 	}
 	switch under(ft).(type) {
 	case *types.Struct:
-		f := e.subFun("sub|" + typeName(t) + "|" + fn)
+		f := e.subFun("sub|"+typeName(t)+"|"+fn, e.structTag(ft))
 		return &PtrV{Kind: pStruct, Ref: app(f, p.Ref), Elem: ft, NonNil: true}
 	case *types.Array:
-		f := e.subFun("sub|" + typeName(t) + "|" + fn)
+		f := e.subFun("sub|"+typeName(t)+"|"+fn, "")
 		return &PtrV{Kind: pArr, Ref: app(f, p.Ref), Elem: ft, NonNil: true}
 	}
 	return &PtrV{Kind: pField, Ref: p.Ref, Fam: structFam(t, fn), Elem: ft, NonNil: true}
@@ -354,9 +358,13 @@ func (e *Eng) fieldPtr(p *PtrV, t types.Type, i int) *PtrV {
 
 // subFun declares the reference of an embedded sub-object as a function of its container; the sub-object
 // is as old as its container and never the null reference.
-func (e *Eng) subFun(name string) T {
+func (e *Eng) subFun(name string, tag T) T {
 	if _, ok := e.q.declared[name]; !ok {
 		f := e.q.DeclareFun(name, []string{sRef}, sRef)
+		if tag != "" {
+			rt := e.q.DeclareFun("rtype", []string{sRef}, sTag)
+			e.q.Assert(fmt.Sprintf("(forall ((r!s %s)) (! (= (%s (%s r!s)) %s) :pattern ((%s r!s))))", sRef, rt, f, tag, f))
+		}
 		b := e.q.DeclareFun("birth", []string{sRef}, sI64)
 		inv := e.q.DeclareFun(name+"^-1", []string{sRef}, sRef)
 		// as old as its container, never null, and distinct containers have distinct sub-objects
@@ -409,6 +417,29 @@ func (e *Eng) newRef(fr *Frame, st *State, hint string) T {
 	return r
 }
 
+// structTag / rtypeOf: every struct object has one struct type (embedded sub-objects have references of
+// their own), so a reference to a T object is never a reference to a U object.  Used to keep "any field
+// of that object" havocs (modifies x.*) away from objects of other types.
+func (e *Eng) structTag(t types.Type) T {
+	return e.structTagByName(typeName(t))
+}
+
+func (e *Eng) structTagByName(k string) T {
+	if e.rtags == nil {
+		e.rtags = map[string]int{}
+	}
+	n, ok := e.rtags[k]
+	if !ok {
+		n = len(e.rtags) + 1
+		e.rtags[k] = n
+	}
+	return bvLit(32, uint64(n))
+}
+
+func (e *Eng) rtypeOf(r T) T {
+	return app(e.q.DeclareFun("rtype", []string{sRef}, sTag), r)
+}
+
 func (e *Eng) allocatedIn(st *State, r T) T {
 	return app("bvult", e.birth(r), e.allocTerm(st))
 }
@@ -447,7 +478,7 @@ func (e *Eng) heapAxiom(name string, h T) T {
 func (e *Eng) havocAll(st *State, why string) {
 	names := e.sortedHeapNames()
 	for _, n := range names {
-		if n == "Alloc" || strings.HasPrefix(n, "G|holds_") || strings.HasPrefix(n, "G|chan") || e.w.stableGlobal(n) {
+		if n == "Alloc" || strings.HasPrefix(n, "G|holds_") || strings.HasPrefix(n, "G|chan") || e.w.stableGlobal(n) || e.w.immutableHeap(n) {
 			// tokens and channel counters are ghost state of this function's own control flow
 			continue
 		}
